@@ -352,5 +352,5 @@ def run(tier="quick"):
                        "heap order (C02)"]
     for m in models:
         rep.configs.append(m.config)
-        rules(rep, m)
+        common.run_rules(rep, m, rules)
     return rep.finish()
